@@ -296,10 +296,15 @@ def run(ctx: Ctx):
                     if isinstance(n, ast.Assign) and any(
                             isinstance(t, ast.Subscript) and isinstance(t.value, ast.Attribute)
                             and t.value.attr == key[1] for t in n.targets):
-                        creators.append((f, n))
+                        creators.append((f, n.value, n,
+                                         [t for t in n.targets if isinstance(t, ast.Subscript)][0].slice))
+                    elif isinstance(n, ast.Call) and isinstance(n.func, ast.Attribute) \
+                            and n.func.attr == "setdefault" and isinstance(n.func.value, ast.Attribute) \
+                            and n.func.value.attr == key[1] and len(n.args) == 2:
+                        creators.append((f, n.args[1], n, n.args[0]))     # get-or-create in one step
             ok = creators and all(
-                isinstance(n.value, ast.Call) and A.call_name(n.value) in ("deque", "collections.deque")
-                and any(k.arg == "maxlen" for k in n.value.keywords) for f, n in creators)
+                isinstance(v_, ast.Call) and A.call_name(v_) in ("deque", "collections.deque")
+                and any(k.arg == "maxlen" for k in v_.keywords) for f, v_, _n, _k in creators)
             if not ok:
                 ctx.fail(cons, ci.loc(), f"the per-key windows of {key[0]}.{key[1]} are not "
                          f"deque(maxlen=...)")
@@ -322,8 +327,7 @@ def run(ctx: Ctx):
             FINITE_KEYS = {("PeerStats", "processed_req_time"):
                            "keyed by Message.name - a command name of the dictionary or 'Unknown'"}
             if creators and not dels and key not in FINITE_KEYS:
-                f0, n0 = creators[0]
-                kexpr = [t for t in n0.targets if isinstance(t, ast.Subscript)][0].slice
+                f0, _v0, n0, kexpr = creators[0]
                 ctx.fail(cons_k, f0.loc(n0), f"{key[0]}.{key[1]} gets one window per `{ast.unparse(kexpr)}` "
                          f"(created in {f0.qualname}) and no key is ever removed: the table grows by one "
                          f"entry for every distinct value - for the retransmission windows every "
